@@ -180,6 +180,33 @@ def replay_case(arg):
     for a, b in zip(t_in + o_in, times + obs):
         if not np.array_equal(a, b):
             fail('NoInputWrite', 'data_modified', None)
+    # ---- a likelihood built on a PRE-REDUCED mechanistic model of the user's (one parameter fixed): it sums the densities at
+    # the value fixed when it was built, also after the user re-fixes his own wrapper
+    if not fails:
+        try:
+            fval = round(float(rng.uniform(0.5, 1.5)), 3)
+            red = chi.ReducedMechanisticModel(probes.ProbeMech(nmech + 1, nout, tag=tag + 'r'))
+            red.fix_parameters({'P%d' % (nmech + 1): fval})
+            ems_r = [probes.error_model(k_) for k_ in kinds]
+            with warnings.catch_warnings():
+                warnings.simplefilter('error', RuntimeWarning)
+                ll_r = chi.LogLikelihood(red, ems_r, [o.copy() for o in obs], [t.copy() for t in times])
+                v_r1 = ll_r(theta.copy())
+                red.fix_parameters({'P%d' % (nmech + 1): 2.0 * fval})           # the user's later change
+                v_r2 = ll_r(theta.copy())
+
+            def ref_r(th):
+                tot = 0.0
+                for (o, n_, at) in rec['pointwise']:
+                    pred = probes.probe_output(o - 1, np.array([treal(at)]), np.concatenate([th[:nmech], [fval]]))[0]
+                    tot = tot + interp.ERR[kinds[o - 1]](obs[o - 1][n_ - 1], pred, th[slices[o - 1]])
+                return tot
+            e_r = interp.value(ref_r, theta)
+            cnt['evaluations'] = cnt.get('evaluations', 0) + 2
+            if list(ll_r.get_parameter_names()) != rec['names'] or not (interp.close(v_r1, e_r) and interp.close(v_r2, e_r)):
+                fail('BagIsDecl', 'value_over_pre_reduced_model', dict(got=[float(v_r1), float(v_r2)], expected=e_r))
+        except Exception as e:
+            fail('Evaluable', type(e).__name__, dict(op='pre-reduced mechanistic model', error=repr(e)))
     # ---- the optional outputs= argument: the same problem stated with the outputs listed in ANOTHER order (error models,
     # observations and times listed accordingly) is the same bag of terms
     if not fails and nout >= 2:
